@@ -5,6 +5,7 @@ requests (words separated by blanks; numbers are `num/den` or integers, a missin
   hpf   <req>                 -> `ok <start> <len> <nv> <trend, variant-major> <gap, variant-major>` | `err:singular`
   hpfq  lam <spanreq> dstart dlen nv values.. lev .. chg ..   -> as `hpf`, or `err:bad` (empty selection, zero step);
         <spanreq> = dots | range a|- b|- step | list k p1..pk  (the span in the form the caller gave it)
+  args  <req>                 -> per variant `<F as toText> b <len> <rhs values>`, joined by ` | `: the arguments of the linear solve
   obj   <req>                 -> `before <F> after <F> answered k`: self._F of the filter object before / after the variant loop
   setup <req>                 -> `lo hi n slo shi lw=[..] cw=[..] ld=[..] cd=[..]`
   sys   n lam kl lw.. kc cw.. mask(n words 0/1)   -> the system matrix as `QMat.toText`
@@ -145,6 +146,15 @@ def runObj (r : Request) : String :=
   let (o', outs) := o.run id id s.ld s.cd cols
   "before " ++ o.F.toText ++ " after " ++ o'.F.toText ++ " answered " ++ toString (outs.filter Option.isSome).length
 
+/-- what goes into the linear solve, per variant: the system matrix and the bordered right-hand side -/
+def runArgs (r : Request) : String :=
+  let s := setup r
+  let parts := r.dcols.map (fun col =>
+    let y := (Ser.mk r.dstart col).fromUntil s.lo s.hi
+    let b := rhs id y s.ld s.cd
+    (sysMatrix s.n r.lam s.lw s.cw y).toText ++ " b " ++ " ".intercalate (toString b.size :: b.toList.map QMat.showRat))
+  " | ".intercalate parts
+
 def runSetup (r : Request) : String :=
   let s := setup r
   s!"{s.lo} {s.hi} {s.n} {s.slo} {s.shi} lw={showNats s.lw} cw={showNats s.cw} ld={showRats s.ld} cd={showRats s.cd}"
@@ -166,6 +176,10 @@ def step (line : String) : String :=
   | "hpfq" :: rest =>
     match requestQ.run rest with
     | some ((r, sp), []) => runHpfQ r sp
+    | _ => "bad-op"
+  | "args" :: rest =>
+    match request.run rest with
+    | some (r, []) => runArgs r
     | _ => "bad-op"
   | "obj" :: rest =>
     match request.run rest with
